@@ -396,6 +396,10 @@ tpt_msg_bsend_ex(tp_p tp, tpt_p src, uint32_t flags,
 	if (NULL == src) {
 		src = tpt_get_current();
 	}
+	if (NULL != src &&
+	    tp != tpt_get_tp(src)) { /* Thread of other thread pool: not one of receivers. */
+		src = NULL;
+	}
 	/* 1 thread specific. */
 	if (1 == threads_max &&
 	    NULL != src) { /* Only if thread send broadcast to self. */
